@@ -2,12 +2,15 @@
 from ..sqlgen import *  # noqa
 from ..common import run_go, run_lean, dec_val, canon, enc_val
 
+FACTS = True
 MODULE = "Genql.Properties.C17"
-LEAN_TARGETS = [MODULE]
+LEAN_TARGETS = [MODULE, "Genql.Obligations.C17"]
 THEOREMS = ["Genql.C17." + t for t in [
     "dq2bt_spelling", "dq2bt_preserves_literals", "dq2bt_total", "dq2bt_never_panics", "dq2bt_id_of_no_ident",
     "fixArrE_eq", "fixArr_spelling", "findBrackets_fifo", "rewrite_length", "fixArr_spelling_forest",
-    "fixArr_unbalanced_error", "fixArr_total", "findBrackets_total"]]
+    "fixArr_unbalanced_error", "fixArr_total", "findBrackets_total",
+    "applyDialect_off", "applyDialect_pg_only", "applyDialect_arr_only", "applyDialect_both", "applyDialect_both_spelling"]] + \
+    ["Genql.Obligations.C17.dialect_rewrite_lines"]
 TRUSTED = ["sqlparser (both spellings hand it the same text, so its meaning is not needed)",
            "the flattening of DoubleQuotesToBackTick's nested loops into a state machine (validated by the byte-string correspondence)"]
 RULE = ("(a) DoubleQuotesToBackTick / FixIdiomaticArray vs the Lean scanners on byte strings over an alphabet with \" ' ` \\ [ ] "
